@@ -140,6 +140,7 @@ fn generate(rng: &mut Rng) -> ConnScenario {
     let mut client = ClientSpec::base(rng, intent);
     client.locale = gen_locale(rng);
     client.info_delay_ns = *rng.pick(&[0u64, 0, ms(50), secs(20)]);
+    client.info = gen_info(rng);
     // most clients hang up as soon as they have been told where to go; some take their time or wait for the server
     client.close_on_end_ns = *rng.pick(&[Some(0u64), Some(0), Some(0), Some(ms(500)), Some(secs(3)), Some(secs(20)), None]);
     let mut sc = ConnScenario {
